@@ -199,7 +199,7 @@ Definition site_table : list (string * string * string * string * just * string)
   ("x/xibc/clients/light-clients/eth/types/hashing.go", "rlpHash", "lib", "rlp.Encode(sha, x)",
    Benign, "the error is discarded, rlp.Encode does not panic on an EthHeader");
   ("x/xibc/clients/light-clients/eth/types/header.go", "Header.ToEthHeader", "lib", "types.BytesToBloom(h.Bloom)",
-   (Guard (@validate_eth_facts)), "Header.ValidateBasic rejects len(Bloom) > 256 (validate_eth_facts; eth_initialize_safe)");
+   (Guard (@validate_eth_facts, @eth_check_root_safe, @eth_initialize_nopanic)), "ClientState.Validate (through Header.ValidateBasic) rejects len(Bloom) > 256: REGENERATED guard, obligation eth_guards_bloom (validate_eth_facts); reached from Initialize / UpgradeState twice since aa5560b: checkConsensusRoot (eth_check_root_safe) and SetEthHeaderIndex / SetEthConsensusRoot (eth_initialize_nopanic)");
   ("x/xibc/clients/light-clients/eth/types/store.go", "SetEthConsensusRoot", "lib", "clientStore.Set(EthRootMainKey(root, height), EthHeaderIndexKey(headerHash, height))",
    Benign, "non-empty formatted key; value = marshalled header / formatted key (non-empty)");
   ("x/xibc/clients/light-clients/eth/types/store.go", "SetEthHeaderIndex", "lib", "clientStore.Set(EthHeaderIndexKey(header.Hash(), header.Height.RevisionHeight), headerBytes)",
@@ -238,6 +238,8 @@ Definition site_table : list (string * string * string * string * just * string)
    Benign, "constant / prefixed non-empty key, non-nil value (marshalled message or []byte(string))");
   ("x/xibc/core/client/keeper/keeper.go", "Keeper.GetClientState", "must", "k.MustUnmarshalClientState(bz)",
    Benign, "see MustUnmarshalClientState");
+  ("x/xibc/core/client/keeper/keeper.go", "Keeper.GetChainName", "lib", "store.Get([]byte(types.KeyClientName))",
+   Benign, "constant non-empty key (""chainName""); an unset name reads as the empty string, which no validated chain name equals (Props: unset_chain_name_never_matches)");
   ("x/xibc/core/client/keeper/keeper.go", "Keeper.SetAllClientMetadata", "lib", "store.Set(md.GetKey(), md.GetValue())",
    (Guard (@gx_init_safe)), "GenesisMetadata.Validate rejects empty keys and values: REGENERATED guards, obligation metadata_guards_key (gx_validate => gx_init never reaches the panic)");
   ("x/xibc/core/client/keeper/keeper.go", "Keeper.SetChainName", "lib", "store.Set([]byte(types.KeyClientName), []byte(chainName))",
